@@ -8,7 +8,6 @@ import (
 	"math/big"
 	"sort"
 
-	vmcommon "github.com/ElrondNetwork/elrond-vm-common"
 	"pgregory.net/rapid"
 )
 
@@ -36,8 +35,8 @@ func metaSC() []byte {
 	return a
 }
 
-var allRoles = []string{vmcommon.ESDTRoleLocalMint, vmcommon.ESDTRoleLocalBurn, vmcommon.ESDTRoleNFTCreate, vmcommon.ESDTRoleNFTAddQuantity,
-	vmcommon.ESDTRoleNFTBurn, vmcommon.ESDTRoleNFTAddURI, vmcommon.ESDTRoleNFTUpdateAttributes}
+var allRoles = []string{refESDTRoleLocalMint, refESDTRoleLocalBurn, refESDTRoleNFTCreate, refESDTRoleNFTAddQuantity,
+	refESDTRoleNFTBurn, refESDTRoleNFTAddURI, refESDTRoleNFTUpdateAttributes}
 
 var defaultTokens = []TokenInfo{{ID: "FNG-a1b2c3", Kind: "F"}, {ID: "FNH-d4e5f6", Kind: "F"}, {ID: "SFT-0a0b0c", Kind: "SFT"}, {ID: "NFT-112233", Kind: "NFT"}}
 
@@ -348,7 +347,7 @@ func (g *Gen) selfCall(fn string, caller []byte, args ...[]byte) *Call {
 func (g *Gen) createRoleBusy(token []byte) ([]byte, bool) {
 	m := g.e.M
 	for _, a := range g.holders {
-		if acc := m.Shards[g.shard(a)].Accounts[string(a)]; acc != nil && acc.hasRole(token, vmcommon.ESDTRoleNFTCreate) {
+		if acc := m.Shards[g.shard(a)].Accounts[string(a)]; acc != nil && acc.hasRole(token, refESDTRoleNFTCreate) {
 			return a, true
 		}
 	}
@@ -363,13 +362,13 @@ func (g *Gen) createRoleBusy(token []byte) ([]byte, bool) {
 // ensureRole is the prerequisite step "some account gets `role`": a disciplined system-contract ESDTSetRole.
 func (g *Gen) ensureRole(role string) Op {
 	m := g.e.M
-	fung := role == vmcommon.ESDTRoleLocalMint || role == vmcommon.ESDTRoleLocalBurn
+	fung := role == refESDTRoleLocalMint || role == refESDTRoleLocalBurn
 	var toks []string
 	for _, id := range m.sortedTokens() {
 		if (m.Tokens[id].Kind == "F") != fung {
 			continue
 		}
-		if role == vmcommon.ESDTRoleNFTCreate {
+		if role == refESDTRoleNFTCreate {
 			if _, busy := g.createRoleBusy([]byte(id)); busy || m.Issued[id] > 0 {
 				continue
 			}
@@ -387,15 +386,15 @@ func (g *Gen) ensureRole(role string) Op {
 	}
 	roles := [][]byte{[]byte(role)}
 	for _, r := range allRoles {
-		rf := r == vmcommon.ESDTRoleLocalMint || r == vmcommon.ESDTRoleLocalBurn
-		if r == role || rf != fung || r == vmcommon.ESDTRoleNFTCreate || acc.hasRole(token, r) {
+		rf := r == refESDTRoleLocalMint || r == refESDTRoleLocalBurn
+		if r == role || rf != fung || r == refESDTRoleNFTCreate || acc.hasRole(token, r) {
 			continue
 		}
 		if g.pick("er-more", 3) > 0 {
 			roles = append(roles, []byte(r))
 		}
 	}
-	return callOp(g.sysCall(g.shard(rcv), vmcommon.BuiltInFunctionSetESDTRole, rcv, append([][]byte{token}, roles...)...))
+	return callOp(g.sysCall(g.shard(rcv), refBuiltInFunctionSetESDTRole, rcv, append([][]byte{token}, roles...)...))
 }
 
 // Next draws the next operation.
@@ -415,7 +414,7 @@ func (g *Gen) byKind(kind string) Op {
 	switch kind {
 	case "issue":
 		rcv := g.addr("issue-rcv")
-		return callOp(g.sysCall(g.shard(rcv), vmcommon.BuiltInFunctionESDTTransfer, rcv, g.tokenOfKind("issue-token", "F"), g.issueAmount("issue-amount")))
+		return callOp(g.sysCall(g.shard(rcv), refBuiltInFunctionESDTTransfer, rcv, g.tokenOfKind("issue-token", "F"), g.issueAmount("issue-amount")))
 	case "setrole":
 		rcv := g.addr("role-rcv")
 		token := g.tokenOfKind("role-token", "F", "SFT", "NFT")
@@ -427,11 +426,11 @@ func (g *Gen) byKind(kind string) Op {
 			if acc.hasRole(token, r) {
 				continue // N6: never set twice
 			}
-			if r == vmcommon.ESDTRoleNFTCreate && (busy || kindOf == "F" || m.Issued[string(token)] > 0) {
+			if r == refESDTRoleNFTCreate && (busy || kindOf == "F" || m.Issued[string(token)] > 0) {
 				continue // N6: one create-role holder; once given it moves only by hand-over
 			}
 			// N6: the system contract grants a role only to a token kind it applies to
-			isFungibleRole := r == vmcommon.ESDTRoleLocalMint || r == vmcommon.ESDTRoleLocalBurn
+			isFungibleRole := r == refESDTRoleLocalMint || r == refESDTRoleLocalBurn
 			if (kindOf == "F") != isFungibleRole {
 				continue
 			}
@@ -447,7 +446,7 @@ func (g *Gen) byKind(kind string) Op {
 		} else {
 			roles = [][]byte{cand[g.pick("role", len(cand))]}
 		}
-		return callOp(g.sysCall(g.shard(rcv), vmcommon.BuiltInFunctionSetESDTRole, rcv, append([][]byte{token}, roles...)...))
+		return callOp(g.sysCall(g.shard(rcv), refBuiltInFunctionSetESDTRole, rcv, append([][]byte{token}, roles...)...))
 	case "unsetrole":
 		var cands [][2][]byte
 		for _, a := range g.holders {
@@ -464,7 +463,7 @@ func (g *Gen) byKind(kind string) Op {
 		p := cands[g.pick("unset-pick", len(cands))]
 		var roles [][]byte
 		for _, r := range m.acc(g.shard(p[0]), p[0]).Roles[string(p[1])] {
-			if r != vmcommon.ESDTRoleNFTCreate { // the protocol never unsets the create role
+			if r != refESDTRoleNFTCreate { // the protocol never unsets the create role
 				roles = append(roles, []byte(r))
 			}
 		}
@@ -480,7 +479,7 @@ func (g *Gen) byKind(kind string) Op {
 				list = append(list, roles[g.pick("unset-role", len(roles))])
 			} else {
 				r := allRoles[g.pick("unset-any", len(allRoles))]
-				if r != vmcommon.ESDTRoleNFTCreate {
+				if r != refESDTRoleNFTCreate {
 					list = append(list, []byte(r))
 				}
 			}
@@ -488,7 +487,7 @@ func (g *Gen) byKind(kind string) Op {
 		if len(list) == 0 {
 			list = [][]byte{roles[0]}
 		}
-		return callOp(g.sysCall(g.shard(p[0]), vmcommon.BuiltInFunctionUnSetESDTRole, p[0], append([][]byte{p[1]}, list...)...))
+		return callOp(g.sysCall(g.shard(p[0]), refBuiltInFunctionUnSetESDTRole, p[0], append([][]byte{p[1]}, list...)...))
 	case "transfer":
 		if len(g.holdings("F")) == 0 && g.pick("pre-tr", 8) > 0 {
 			return g.byKind("issue")
@@ -505,13 +504,13 @@ func (g *Gen) byKind(kind string) Op {
 		}
 		return callOp(g.genMulti())
 	case "mint":
-		if len(g.roleHolders(vmcommon.ESDTRoleLocalMint)) == 0 && g.pick("pre-mint", 4) > 0 {
-			return g.ensureRole(vmcommon.ESDTRoleLocalMint)
+		if len(g.roleHolders(refESDTRoleLocalMint)) == 0 && g.pick("pre-mint", 4) > 0 {
+			return g.ensureRole(refESDTRoleLocalMint)
 		}
 		return callOp(g.genMintBurn(kind))
 	case "localburn":
-		if len(g.roleHolders(vmcommon.ESDTRoleLocalBurn)) == 0 && g.pick("pre-lb", 4) > 0 {
-			return g.ensureRole(vmcommon.ESDTRoleLocalBurn)
+		if len(g.roleHolders(refESDTRoleLocalBurn)) == 0 && g.pick("pre-lb", 4) > 0 {
+			return g.ensureRole(refESDTRoleLocalBurn)
 		}
 		return callOp(g.genMintBurn(kind))
 	case "burn":
@@ -520,8 +519,8 @@ func (g *Gen) byKind(kind string) Op {
 		}
 		return callOp(g.genMintBurn(kind))
 	case "create":
-		if len(g.roleHolders(vmcommon.ESDTRoleNFTCreate)) == 0 && g.pick("pre-cr", 8) > 0 {
-			return g.ensureRole(vmcommon.ESDTRoleNFTCreate)
+		if len(g.roleHolders(refESDTRoleNFTCreate)) == 0 && g.pick("pre-cr", 8) > 0 {
+			return g.ensureRole(refESDTRoleNFTCreate)
 		}
 		return callOp(g.genCreate())
 	case "addq", "nftburn", "adduri", "update":
@@ -530,7 +529,7 @@ func (g *Gen) byKind(kind string) Op {
 		}
 		return callOp(g.genOwnNFT(kind))
 	case "freeze", "unfreeze", "wipe":
-		fn := map[string]string{"freeze": vmcommon.BuiltInFunctionESDTFreeze, "unfreeze": vmcommon.BuiltInFunctionESDTUnFreeze, "wipe": vmcommon.BuiltInFunctionESDTWipe}[kind]
+		fn := map[string]string{"freeze": refBuiltInFunctionESDTFreeze, "unfreeze": refBuiltInFunctionESDTUnFreeze, "wipe": refBuiltInFunctionESDTWipe}[kind]
 		rcv := g.addr("freeze-rcv")
 		token := g.tokenOfKind("freeze-token", "F", "F", "F", "SFT")
 		if kind != "freeze" {
@@ -554,9 +553,9 @@ func (g *Gen) byKind(kind string) Op {
 		}
 		return callOp(g.sysCall(g.shard(rcv), fn, rcv, token))
 	case "pause", "unpause":
-		fn := vmcommon.BuiltInFunctionESDTPause
+		fn := refBuiltInFunctionESDTPause
 		if kind == "unpause" {
-			fn = vmcommon.BuiltInFunctionESDTUnPause
+			fn = refBuiltInFunctionESDTUnPause
 		}
 		sh := g.pick("pause-shard", m.NShards)
 		// the metachain broadcasts a global setting to every shard by addressing the system account with its last
@@ -583,7 +582,7 @@ func (g *Gen) byKind(kind string) Op {
 		p := cands[g.pick("handover-pick", len(cands))]
 		next := g.dest("handover-next", p[0])
 		g.Shape = append(g.Shape, "handover")
-		return callOp(g.sysCall(g.shard(p[0]), vmcommon.BuiltInFunctionESDTNFTCreateRoleTransfer, p[0], p[1], next))
+		return callOp(g.sysCall(g.shard(p[0]), refBuiltInFunctionESDTNFTCreateRoleTransfer, p[0], p[1], next))
 	case "seedhandover":
 		if m.NShards < 2 {
 			return g.byKind("setrole")
@@ -603,7 +602,7 @@ func (g *Gen) byKind(kind string) Op {
 		ext[31] = byte((g.shard(rcv) + 1) % m.NShards)
 		cnt := pickFrom(g, "seed-counter", []uint64{0, 1, 254, 255, 256, 65535, 1<<32 - 1, 1 << 32, 1 << 63})
 		g.Layer = "sys"
-		return Op{Kind: "seed-handover", Call: &Call{Fn: vmcommon.BuiltInFunctionESDTNFTCreateRoleTransfer, Caller: ext, Rcv: cp(rcv), Args: hbs(tok, beNonce(cnt))}}
+		return Op{Kind: "seed-handover", Call: &Call{Fn: refBuiltInFunctionESDTNFTCreateRoleTransfer, Caller: ext, Rcv: cp(rcv), Args: hbs(tok, beNonce(cnt))}}
 	case "deliver":
 		pend := m.pendingMsgs()
 		if len(pend) == 0 {
@@ -636,7 +635,7 @@ func (g *Gen) byKind(kind string) Op {
 		if len(caller) != 32 || int(m.shardOf(caller)) >= m.NShards || g.pick("co-other", 4) == 0 {
 			caller = g.addr("co-caller")
 		}
-		c := &Call{Shard: g.shard(caller), Fn: vmcommon.BuiltInFunctionChangeOwnerAddress, Caller: cp(caller), Rcv: cp(sc), Args: hbs(g.addr("co-new"))}
+		c := &Call{Shard: g.shard(caller), Fn: refBuiltInFunctionChangeOwnerAddress, Caller: cp(caller), Rcv: cp(sc), Args: hbs(g.addr("co-new"))}
 		g.gasFor(c)
 		return callOp(c)
 	case "claim":
@@ -645,7 +644,7 @@ func (g *Gen) byKind(kind string) Op {
 		if len(caller) != 32 || int(m.shardOf(caller)) >= m.NShards || g.pick("cl-other", 4) == 0 {
 			caller = g.addr("cl-caller")
 		}
-		c := &Call{Shard: g.shard(caller), Fn: vmcommon.BuiltInFunctionClaimDeveloperRewards, Caller: cp(caller), Rcv: cp(sc)}
+		c := &Call{Shard: g.shard(caller), Fn: refBuiltInFunctionClaimDeveloperRewards, Caller: cp(caller), Rcv: cp(sc)}
 		c.CallType = g.callType("cl-type", caller)
 		g.gasFor(c)
 		return callOp(c)
@@ -655,7 +654,7 @@ func (g *Gen) byKind(kind string) Op {
 			caller = g.addr("un-caller")
 		}
 		rcv := g.e.Spec.Users[g.pick("un-rcv", len(g.e.Spec.Users))]
-		c := &Call{Shard: g.shard(caller), Fn: vmcommon.BuiltInFunctionSetUserName, Caller: cp(caller), Rcv: cp(rcv), Args: hbs(pickFrom(g, "un-name", [][]byte{[]byte("alice.elrond"), []byte("b"), bytes.Repeat([]byte("n"), 40)}))}
+		c := &Call{Shard: g.shard(caller), Fn: refBuiltInFunctionSetUserName, Caller: cp(caller), Rcv: cp(rcv), Args: hbs(pickFrom(g, "un-name", [][]byte{[]byte("alice.elrond"), []byte("b"), bytes.Repeat([]byte("n"), 40)}))}
 		g.gasFor(c)
 		return callOp(c)
 	case "skv":
@@ -720,7 +719,7 @@ func (g *Gen) genTransfer() *Call {
 	}
 	args := [][]byte{token, g.amount("tr-amount", bal)}
 	args = append(args, g.attachedCall("tr-call", to)...)
-	c := &Call{Shard: g.shard(from), Fn: vmcommon.BuiltInFunctionESDTTransfer, Caller: cp(from), Rcv: cp(to), Args: hbs(args...)}
+	c := &Call{Shard: g.shard(from), Fn: refBuiltInFunctionESDTTransfer, Caller: cp(from), Rcv: cp(to), Args: hbs(args...)}
 	c.CallType = g.callType("tr-type", from)
 	g.gasFor(c)
 	g.shapeOfDest(from, to, string(token))
@@ -760,7 +759,7 @@ func (g *Gen) genNFTTransfer() *Call {
 	}
 	args := [][]byte{token, nb, g.amount("nt-amount", bal), to}
 	args = append(args, g.attachedCall("nt-call", to)...)
-	c := &Call{Shard: g.shard(from), Fn: vmcommon.BuiltInFunctionESDTNFTTransfer, Caller: cp(from), Rcv: cp(from), Args: hbs(args...)}
+	c := &Call{Shard: g.shard(from), Fn: refBuiltInFunctionESDTNFTTransfer, Caller: cp(from), Rcv: cp(from), Args: hbs(args...)}
 	c.CallType = g.callType("nt-type", from)
 	g.gasFor(c)
 	g.shapeOfDest(from, to, suffixOf(token, nonce))
@@ -809,7 +808,7 @@ func (g *Gen) genMulti() *Call {
 		g.shapeOfDest(from, to, h.suffix)
 	}
 	args = append(args, g.attachedCall("mu-call", to)...)
-	c := &Call{Shard: g.shard(from), Fn: vmcommon.BuiltInFunctionMultiESDTNFTTransfer, Caller: cp(from), Rcv: cp(from), Args: hbs(args...)}
+	c := &Call{Shard: g.shard(from), Fn: refBuiltInFunctionMultiESDTNFTTransfer, Caller: cp(from), Rcv: cp(from), Args: hbs(args...)}
 	c.CallType = g.callType("mu-type", from)
 	g.gasFor(c)
 	g.Shape = append(g.Shape, sprintf("multi-n=%d", n))
@@ -851,7 +850,7 @@ func (g *Gen) genMintBurn(kind string) *Call {
 	m := g.e.M
 	switch kind {
 	case "mint":
-		rh := g.roleHolders(vmcommon.ESDTRoleLocalMint)
+		rh := g.roleHolders(refESDTRoleLocalMint)
 		var who, token []byte
 		if len(rh) > 0 && g.pick("mint-auth", 6) > 0 {
 			p := rh[g.pick("mint-pick", len(rh))]
@@ -859,9 +858,9 @@ func (g *Gen) genMintBurn(kind string) *Call {
 		} else {
 			who, token = g.addr("mint-who"), g.tokenOfKind("mint-token", "F")
 		}
-		return g.selfCall(vmcommon.BuiltInFunctionESDTLocalMint, who, token, g.amount("mint-amount", m.acc(g.shard(who), who).bal(string(token))))
+		return g.selfCall(refBuiltInFunctionESDTLocalMint, who, token, g.amount("mint-amount", m.acc(g.shard(who), who).bal(string(token))))
 	case "localburn":
-		rh := g.roleHolders(vmcommon.ESDTRoleLocalBurn)
+		rh := g.roleHolders(refESDTRoleLocalBurn)
 		var who, token []byte
 		if len(rh) > 0 && g.pick("lb-auth", 6) > 0 {
 			p := rh[g.pick("lb-pick", len(rh))]
@@ -872,7 +871,7 @@ func (g *Gen) genMintBurn(kind string) *Call {
 		} else {
 			who, token = g.addr("lb-who"), g.tokenOfKind("lb-token", "F")
 		}
-		return g.selfCall(vmcommon.BuiltInFunctionESDTLocalBurn, who, token, g.amount("lb-amount", m.acc(g.shard(who), who).bal(string(token))))
+		return g.selfCall(refBuiltInFunctionESDTLocalBurn, who, token, g.amount("lb-amount", m.acc(g.shard(who), who).bal(string(token))))
 	default:
 		var who, token []byte
 		if hs := g.holdings("F"); len(hs) > 0 {
@@ -881,7 +880,7 @@ func (g *Gen) genMintBurn(kind string) *Call {
 		} else {
 			who, token = g.addr("bu-who"), g.tokenOfKind("bu-token", "F")
 		}
-		c := &Call{Shard: g.shard(who), Fn: vmcommon.BuiltInFunctionESDTBurn, Caller: cp(who), Rcv: cp(refESDTSC), Args: hbs(token, g.amount("bu-amount", m.acc(g.shard(who), who).bal(string(token))))}
+		c := &Call{Shard: g.shard(who), Fn: refBuiltInFunctionESDTBurn, Caller: cp(who), Rcv: cp(refESDTSC), Args: hbs(token, g.amount("bu-amount", m.acc(g.shard(who), who).bal(string(token))))}
 		c.CallType = g.callType("bu-type", who)
 		g.gasFor(c)
 		return c
@@ -893,7 +892,7 @@ func (g *Gen) field(label string) []byte {
 }
 
 func (g *Gen) genCreate() *Call {
-	rh := g.roleHolders(vmcommon.ESDTRoleNFTCreate)
+	rh := g.roleHolders(refESDTRoleNFTCreate)
 	var who, token []byte
 	if len(rh) > 0 && g.pick("cr-auth", 7) > 0 {
 		p := rh[g.pick("cr-pick", len(rh))]
@@ -908,12 +907,12 @@ func (g *Gen) genCreate() *Call {
 	for i := 0; i < nuris; i++ {
 		args = append(args, g.field("cr-uri"))
 	}
-	return g.selfCall(vmcommon.BuiltInFunctionESDTNFTCreate, who, args...)
+	return g.selfCall(refBuiltInFunctionESDTNFTCreate, who, args...)
 }
 
 func (g *Gen) genOwnNFT(kind string) *Call {
-	role := map[string]string{"addq": vmcommon.ESDTRoleNFTAddQuantity, "nftburn": vmcommon.ESDTRoleNFTBurn, "adduri": vmcommon.ESDTRoleNFTAddURI, "update": vmcommon.ESDTRoleNFTUpdateAttributes}[kind]
-	fn := map[string]string{"addq": vmcommon.BuiltInFunctionESDTNFTAddQuantity, "nftburn": vmcommon.BuiltInFunctionESDTNFTBurn, "adduri": vmcommon.BuiltInFunctionESDTNFTAddURI, "update": vmcommon.BuiltInFunctionESDTNFTUpdateAttributes}[kind]
+	role := map[string]string{"addq": refESDTRoleNFTAddQuantity, "nftburn": refESDTRoleNFTBurn, "adduri": refESDTRoleNFTAddURI, "update": refESDTRoleNFTUpdateAttributes}[kind]
+	fn := map[string]string{"addq": refBuiltInFunctionESDTNFTAddQuantity, "nftburn": refBuiltInFunctionESDTNFTBurn, "adduri": refBuiltInFunctionESDTNFTAddURI, "update": refBuiltInFunctionESDTNFTUpdateAttributes}[kind]
 	hs := g.holdings("N")
 	// prefer a holding whose holder has the role
 	var good []holding
@@ -1030,7 +1029,7 @@ func (g *Gen) genSKV() *Call {
 	if g.pick("skv-odd", 12) == 0 {
 		args = args[:len(args)-1]
 	}
-	c := &Call{Shard: g.shard(who), Fn: vmcommon.BuiltInFunctionSaveKeyValue, Caller: cp(who), Rcv: cp(who), Args: hbs(args...)}
+	c := &Call{Shard: g.shard(who), Fn: refBuiltInFunctionSaveKeyValue, Caller: cp(who), Rcv: cp(who), Args: hbs(args...)}
 	if g.pick("skv-other", 10) == 0 {
 		c.Rcv = cp(g.dest("skv-rcv", who))
 	}
@@ -1052,34 +1051,34 @@ func (g *Gen) genGasOp() Op {
 	switch g.pick("gas-sections", 6) {
 	case 0: // only the per-byte section changes
 		for _, n := range builtInCostNames {
-			gm[vmcommon.BuiltInCostString][n] = cur[n]
+			gm[refBuiltInCostSection][n] = cur[n]
 		}
 	case 1: // only the built-in section changes
 		for _, n := range baseCostNames {
-			gm[vmcommon.BaseOperationCostString][n] = cur[n]
+			gm[refBaseOperationCostSection][n] = cur[n]
 		}
 	case 2: // identical schedule
 		for _, n := range builtInCostNames {
-			gm[vmcommon.BuiltInCostString][n] = cur[n]
+			gm[refBuiltInCostSection][n] = cur[n]
 		}
 		for _, n := range baseCostNames {
-			gm[vmcommon.BaseOperationCostString][n] = cur[n]
+			gm[refBaseOperationCostSection][n] = cur[n]
 		}
 	}
 	switch g.pick("gas-valid", 4) {
 	case 0: // invalid: one entry zeroed
 		i := g.pick("gas-zero", 22)
 		if i < 6 {
-			gm[vmcommon.BaseOperationCostString][baseCostNames[i]] = 0
+			gm[refBaseOperationCostSection][baseCostNames[i]] = 0
 		} else {
-			gm[vmcommon.BuiltInCostString][builtInCostNames[i-6]] = 0
+			gm[refBuiltInCostSection][builtInCostNames[i-6]] = 0
 		}
 	case 1: // invalid: one entry missing
 		i := g.pick("gas-missing", 22)
 		if i < 6 {
-			delete(gm[vmcommon.BaseOperationCostString], baseCostNames[i])
+			delete(gm[refBaseOperationCostSection], baseCostNames[i])
 		} else {
-			delete(gm[vmcommon.BuiltInCostString], builtInCostNames[i-6])
+			delete(gm[refBuiltInCostSection], builtInCostNames[i-6])
 		}
 	}
 	return Op{Kind: "gas", Shard: sh, Gas: gm}
